@@ -58,6 +58,7 @@ func Main() {
 	_ = fs.Set("logtostderr", "false")
 	_ = fs.Set("alsologtostderr", "false")
 	_ = fs.Set("stderrthreshold", "FATAL")
+	_ = fs.Set("log_file", "/dev/null") // no log files under the temporary directory
 	if os.Getenv("GH_VERBOSE") != "" {
 		_ = fs.Set("logtostderr", "true")
 		_ = fs.Set("v", "5")
